@@ -182,7 +182,9 @@ IDo(op, i, k, m, d, n, n2) ==
       R == Impl(op, [rep |-> rep, blk |-> blk, err |-> err], a)
       C == Canon(R)
   IN /\ op \notin Skip
-     /\ IBound                 \* only states within the bound are expanded; their successors may exceed it (leaves)
+     \* only states within the bound are expanded; their successors may exceed it, and from those only clear() of
+     \* an over-long variable leads on (back into the bound, so that the edge-covering walks do not end there)
+     /\ (IBound \/ (op = "clear" /\ Len(st.val[i]) > MaxLen))
      /\ InDomain(op, st, a)
      /\ rep' = C.rep /\ blk' = C.blk /\ err' = (IF err # "none" THEN err ELSE R.err) /\ xm' = xm
      /\ \E o \in Step(op, st, a) : st' = o
